@@ -62,6 +62,32 @@ SPEC = {
     floor_bind=450,
     floor_frame=10,
   ),
+  "C39": dict(
+    entries=["support.contact_force"],
+    enums=[],
+    areas=set(),
+    what="contact wrench decode kernel",
+    floor_bind=8,
+    floor_sort=2,
+  ),
+  "C22": dict(
+    entries=["support.jac", "constraint.make_constraint", "smooth.transmission", "smooth.tendon"],
+    select=lambda lc: any(k in lc.name.lower() for k in ("jac", "transmission", "tendon")) or lc.fi.module == "support",
+    enums=[],
+    areas=set(),
+    what="point, constraint-row, tendon and actuator Jacobian kernels",
+    floor_bind=150,
+    floor_sort=20,
+  ),
+  "C27": dict(
+    entries=["derivative.deriv_smooth_vel", "forward.implicit"],
+    select=lambda lc: lc.fi.module == "derivative",
+    enums=[],
+    areas=set(),
+    what="velocity-derivative kernels (actuation, damping, fluid, tendon, Coriolis)",
+    floor_bind=60,
+    floor_sort=10,
+  ),
   "C40": dict(
     entries=["smooth.flex", "passive.passive", "constraint.make_constraint", "collision_driver.collision", "forward.fwd_velocity"],
     select=lambda lc: "flex" in lc.name.lower() or lc.fi.module == "collision_flex",
